@@ -358,7 +358,7 @@ func buildSeqFixture() *seqFixture {
 	f.mk.secret("plain-password", seqPostPw)
 	x2, y2 := ecPoint(sq + ".2")
 	k2 := b64(sum32("hmac:" + sq + ".2"))
-	k3 := b64(append(sum32("hmac:"+sq+".3"), sum32("hmac:"+sq+".4")[:16]...))
+	k3 := b64(append(sum32("hmac:"+sq+".3"), sum32("hmac:" + sq + ".4")[:16]...))
 	for _, s := range []string{x2, y2, k2, k3} {
 		f.mk.secret("new-key", s)
 	}
